@@ -344,6 +344,20 @@ def scattered_field_to_hologram(scat, ref):
     return holo
 
 
+def _radii_per_channel(spheres):
+    # a radius given per illumination channel (as a dictionary or a labelled
+    # array) is one radius for every channel, not a coated sphere
+    radii = []
+    for sphere in spheres.scatterers:
+        if isinstance(sphere.r, dict):
+            radii.extend(sphere.r.values())
+        elif isinstance(sphere.r, xr.DataArray) and illumination in sphere.r.dims:
+            radii.extend(sphere.r.transpose(illumination, ...).values)
+        else:
+            radii.append(sphere.r)
+    return radii
+
+
 def _choose_mie_vs_multisphere(spheres):
     center_or_radius_not_set = [
         getattr(s, k) is None
@@ -354,7 +368,7 @@ def _choose_mie_vs_multisphere(spheres):
         msg = ("Sphere centers and radii must be set for scattering " +
                "calculations with more than one sphere.")
         raise InvalidScatterer(spheres, msg)
-    elif any([not np.isscalar(sphere.r) for sphere in spheres.scatterers]):
+    elif any([np.ndim(r) > 0 for r in _radii_per_channel(spheres)]):
         warn("HoloPy's multisphere theory can't handle coated spheres." +
              "Using Mie theory.")
         theory = Mie()
@@ -391,7 +405,7 @@ def _choose_mie_vs_multisphere(spheres):
         # by fitting electromagnetic scattering solutions to digital
         # holograms." Journal of Quantitative Spectroscopy and Radiative
         # Transfer 113.18 (2012): 2482-2489.
-        max_radius = max([sphere.r for sphere in spheres.scatterers])
+        max_radius = max(_radii_per_channel(spheres))
         centers = np.array([sphere.center for sphere in spheres.scatterers])
         dx = centers.reshape(1, -1, 3) - centers.reshape(-1, 1, 3)
         max_separation = np.linalg.norm(dx, axis=2).max()
